@@ -50,6 +50,10 @@ func propC02(c *Ctx) {
 	c.ruleLoopsCoverAll("C02-LOOPS-COVER-ALL")
 	if m := c.E1Base(); m != nil {
 		c.ruleOpenTransparent(m, "C02-OPEN-TRANSPARENT")
+		// a line comment must end at the end of its line: otherwise the directives behind it are missing from the catalog
+		c.R.Only = func(rule string) bool { return rule == "C08-COMMENT-FENCE" || rule == "C08-COMMENT-RETURN" }
+		c.ruleC08Scanner(m)
+		c.R.Only = nil
 	}
 }
 
@@ -1487,6 +1491,28 @@ func (c *Ctx) ruleKindVisitedAll(rule string) {
 						}
 						return true
 					})
+				}
+			}
+			// a branch that only steps over the match (`if d.Type() == K { continue }`) looks at nothing: it is neither a
+			// visit nor a search
+			if be, isBin := n.(*ast.BinaryExpr); isBin && be.Op == token.EQL {
+				for i := len(stack) - 1; i >= 0; i-- {
+					ifs, isIf := stack[i].(*ast.IfStmt)
+					if !isIf {
+						continue
+					}
+					if ifs.Cond.Pos() <= n.Pos() && n.End() <= ifs.Cond.End() && ifs.Else == nil {
+						onlySteps := len(ifs.Body.List) > 0
+						for _, st := range ifs.Body.List {
+							if _, isBranch := st.(*ast.BranchStmt); !isBranch {
+								onlySteps = false
+							}
+						}
+						if onlySteps {
+							return true
+						}
+					}
+					break
 				}
 			}
 			for _, k := range kinds {
